@@ -62,7 +62,7 @@ def run(cx):
     c1b = 'index($data, Range::Range{0, 65})'
     C1p = 'from_bytes(%s)' % c1b
     w = 'BE(sm9_u256_pairing($self.de, %s))' % C1p
-    kin = ['index(%s, Range::Range{1, 65})' % c1b, w, '$idb']
+    kin = ['index($data, Range::Range{1, 65})', w, '$idb']      # data[0..65][1..65]: a slice of a slice is written as a slice of the original
     kd = FR.calls_of(fn, 'key::kdf')
     Kx = None
     if len(kd) == 1:
@@ -92,7 +92,7 @@ def run(cx):
         G.guard(cx, 'G-SM9D-CURVE', 'decrypt', fn, P, prs, lambda p: p.kind == 'valid' and p.op == 'is_on_curve' and cn.c(p.args[0]) == C1p, True,
                 'the decoded C1 must be on the curve before e(C1, de) is computed')
     # length: 97 <= len(data) <= 97 + 255 before any slicing
-    idx = [b for b in FR.calls_of(fn, 'index') if FR.arg_canon(fn, P, cn, b, 0) == '$data']
+    idx = [b for b, _ in FR.slice_sites(fn, P, cn, 'data')]
     cx.floor('L-SM9D-LEN', 'decrypt/slices', len(idx), 3, 'slices of the ciphertext parameter')
     G.range_guard(cx, 'L-SM9D-LEN', 'decrypt', fn, P, idx or sinks, lambda e: cn.c(norm(e)) == 'len($data)', 97, 97 + 255,
                   'ciphertext length must be within [97, 352] (C1 65 + C3 32 + 0..255 bytes) before it is sliced')
